@@ -81,6 +81,11 @@ func (t *rawTarget) handle(c net.Conn) {
 			st, rest, _ := strings.Cut(arg, ":")
 			n, _ := strconv.Atoi(rest)
 			fmt.Fprintf(c, "HTTP/1.1 %s X\r\nContent-Type: text/plain\r\nX-Resp: v1\r\nX-Resp: v2\r\nContent-Length: %d\r\n\r\n%s", st, n, strings.Repeat("b", n))
+		case "early":
+			st, rest, _ := strings.Cut(arg, ":")
+			n, _ := strconv.Atoi(rest)
+			io.WriteString(c, "HTTP/1.1 103 Early Hints\r\nLink: </style.css>; rel=preload\r\n\r\n")
+			fmt.Fprintf(c, "HTTP/1.1 %s X\r\nContent-Type: text/plain\r\nX-Resp: v1\r\nX-Resp: v2\r\nContent-Length: %d\r\n\r\n%s", st, n, strings.Repeat("b", n))
 		case "close":
 			return
 		case "garbage":
@@ -145,7 +150,7 @@ func (l *logCapture) Write(p []byte) (int, error) {
 	return len(p), nil
 }
 
-var fltModes = []string{"ok:200:0", "ok:200:10", "ok:404:5", "ok:500:3", "ok:201:70000", "close", "garbage", "midstatus", "midheaders", "afterstatus", "afterheaderline", "silence",
+var fltModes = []string{"ok:200:0", "ok:200:10", "ok:404:5", "ok:500:3", "ok:201:70000", "early:200:4", "early:404:5", "early:503:0", "early:201:300", "close", "garbage", "midstatus", "midheaders", "afterstatus", "afterheaderline", "silence",
 	"midbody:10:4", "midbody:70000:100", "chunkpartial", "refuse", "upgrade", "slow:%d"}
 
 func genFaults(rng *mrand.Rand, n int, tier string, w *bufio.Writer) {
@@ -290,12 +295,20 @@ func runFaults(t *testing.T, fx *fixtures, c verifCase, w *bufio.Writer) {
 					}
 					br := bufio.NewReader(cli)
 					resp, err := http.ReadResponse(br, nil)
+					early := 0
+					for err == nil && resp.StatusCode >= 100 && resp.StatusCode <= 199 && resp.StatusCode != 101 {
+						early++ // informational responses precede the final one
+						resp, err = http.ReadResponse(br, nil)
+					}
 					if err != nil {
 						resc <- result{none: true}
 						cli.Close()
 						return
 					}
 					r := result{status: resp.StatusCode, hdr: resp.Header}
+					if early > 0 {
+						r.extra = fmt.Sprintf("early=%d", early)
+					}
 					if resp.StatusCode == 101 {
 						buf := make([]byte, 17)
 						n, _ := io.ReadFull(br, buf)
